@@ -400,6 +400,24 @@ func vfRunTimerStorm(t *testing.T, spec *vfSpec, res *vfRes) {
 		}
 		wg.Wait()
 		synctest.Wait()
+		// whatever the storm did, the timer must still work: a fresh start expires and calls back
+		tm.stop()
+		synctest.Wait()
+		obs.mu.Lock()
+		nBefore := len(obs.cbs)
+		obs.mu.Unlock()
+		if tm.start(7) {
+			time.Sleep(20 * time.Millisecond)
+			synctest.Wait()
+			obs.mu.Lock()
+			nAfter := len(obs.cbs)
+			obs.mu.Unlock()
+			if nAfter == nBefore {
+				res.violate("C19", "timer/dead-after-storm", "after a storm of concurrent start/stop calls a freshly started 7 ms timer never expired (pending=%d): the start/stop/expiry race protection lost count", tm.pending)
+			}
+		} else {
+			res.violate("C19", "timer/start-result", "start() on a stopped timer returned false after the storm")
+		}
 		tm.close()
 		at.close()
 		closedAt := time.Since(obs.t0)
@@ -729,7 +747,9 @@ func vfGenTimerSpecs(tier string, seed uint64, race bool) []vfSpec {
 		r := vfNewRand(vfHash(seed, uint64(i), 0xC19))
 		add(vfSpec{Kind: "rto-seq", Seed: r.Uint64(), X: map[string]int64{"seqs": int64(vfTierN(tier, 200, 1500))}})
 		add(vfSpec{Kind: "timer-prog", Seed: r.Uint64(), X: map[string]int64{"programs": int64(vfTierN(tier, 12, 60))}})
-		add(vfSpec{Kind: "timer-storm", Seed: r.Uint64(), Procs: 8})
+		for k := 0; k < 4; k++ {
+			add(vfSpec{Kind: "timer-storm", Seed: r.Uint64(), Procs: r.Pick(2, 4, 8, 16)})
+		}
 	}
 	// acknowledgement promptness: transfers over reordering / duplicating / lossy links, no injected yields
 	na := vfTierN(tier, 70, 1500)
